@@ -15,6 +15,22 @@ check("C01",
       "property-based differential testing against a sequential reference interpreter + metamorphic relations (calling convention, reversed priorities), Hypothesis-generated program ASTs, structural shrinking",
       "DESIGN.md 5/C01")
 
+check("C02",
+      "Fault-heavy generated programs (a task raising at any step, item errors, items left unset, flush bodies raising after a prefix, ErrorFuture, failing lazy Future, non-future objects; try/except on or off at every level; synchronous re-entry; DAG sharing) on both builds. Oracle: the sequential reference's 'first failure in structure order' for outcome and every transcript; in-body monitors assert exception *identity* (the object caught is error() of the first failing future), that every future yielded alongside is computed at delivery, and that value() raises the task's own error object. Hangs are caught by the heartbeat watchdog and confirmed alone before being reported.",
+      "Trusted: reference interpreter, harness batch kinds; which items a raising flush leaves unset is read from the flush body's own log. NonAsyncContext / failing contexts are excluded from this property's programs.",
+      "property-based testing with fault injection at generated positions; differential against a sequential reference + identity/ordering monitors inside the generated task bodies",
+      "DESIGN.md 5/C02")
+check("C04",
+      "Yield-only generated programs (unequal depths, DAG sharing, errors, try/except, contexts, 1-3 batch kinds, generated priority tables). At every on_before_batch_flush the harness asserts from its own records that every awaited, uncompleted task has started and still waits on an uncomputed future (induction over the acyclic program gives 'is waiting on an unflushed item'); single-kind programs are additionally compared with an independent round simulator: number of flushes = critical path, and the argument multiset of each flush = the simulator's round.",
+      "Trusted: round simulator (harness/e1/sim.py), harness bookkeeping of what each task yielded. With several kinds only the invariant is asserted (the flush count is schedule dependent).",
+      "property-based testing: invariant checked at every flush event + differential against a round-based reference scheduler",
+      "DESIGN.md 5/C04")
+check("C05",
+      "Generated programs over 2-3 batch kinds with generated get_priority tables (overrides, ties, default), flush bodies that succeed / set errors / skip items / raise after a prefix / whose public flush() raises, with and without nested synchronous calls. History invariants over before/body/after events: each batch at most once, never empty or already flushed, nothing flushed once the innermost awaited computation is complete, events exactly before,body,after (after also on failure); yield-only: flushed priority = max over the harness-computed candidate set; every item announced once inside its batch's window with the outcome its flush set; waiting tasks receive exactly that (reference interpreter fed with the flush log).",
+      "Trusted: harness batch kinds and their log, reference interpreter. Ties may resolve either way (only a strictly greater pending priority is a violation).",
+      "property-based testing: history invariants over flush events of generated programs + differential on received values",
+      "DESIGN.md 5/C05")
+
 for pid in ["C%02d" % i for i in range(1, 21)]:
     if pid not in CHECKS:
         PENDING[pid] = "check under construction in this framework (designed in DESIGN.md section 5, not yet registered)"
